@@ -320,6 +320,23 @@ func mkBinop(op token.Token, x, y *Val, t types.Type) *Val {
 			return mkBool(r)
 		}
 	}
+	// a short count is strictly less than the length asked for
+	if isShortVs(x, y) {
+		switch op {
+		case token.LSS, token.LEQ:
+			return mkBool(true)
+		case token.GTR, token.GEQ:
+			return mkBool(false)
+		}
+	}
+	if isShortVs(y, x) {
+		switch op {
+		case token.GTR, token.GEQ:
+			return mkBool(true)
+		case token.LSS, token.LEQ:
+			return mkBool(false)
+		}
+	}
 	// nil comparisons
 	if op == token.EQL || op == token.NEQ {
 		if r, ok := nilCompare(x, y); ok {
@@ -524,6 +541,9 @@ func mkLen(x *Val) *Val {
 		if isStringOrBytes(x.Type) && x.Args[0].Type != nil && isStringOrBytes(x.Args[0].Type) {
 			return mkLen(x.Args[0])
 		}
+		if _, isTP := x.Args[0].Type.(*types.TypeParam); isTP && isStringOrBytes(x.Type) {
+			return mkLen(x.Args[0]) // []byte(v) of a type-parameter value that can only be text
+		}
 	case "slice":
 		lo, hi := x.Args[1], x.Args[2]
 		if hi == nil {
@@ -699,6 +719,14 @@ func affOf(v *Val) *Affine {
 		if wideningInt(v.Args[0].Type, v.Type) {
 			return affOf(v.Args[0])
 		}
+		// a length (never negative) converted to an unsigned type of at least int's width keeps its value: uint64(buf.Len())
+		if in := v.Args[0]; in != nil && (in.Op == "buflen" || in.Op == "len" || in.Op == "cap") && v.Type != nil {
+			if b, ok := v.Type.Underlying().(*types.Basic); ok && b.Info()&types.IsUnsigned != 0 {
+				if bits, _ := intBits(b); bits == 64 || bits == 0 {
+					return affOf(in)
+				}
+			}
+		}
 	}
 	a := affConst(0)
 	a.Term[v.Key()] = 1
@@ -711,6 +739,9 @@ func affOf(v *Val) *Affine {
 func wideningInt(from, to types.Type) bool {
 	if from == nil || to == nil {
 		return false
+	}
+	if types.Identical(from, to) {
+		return true // T(x) for x already of type T (as left behind by substituting a generic helper's type parameter)
 	}
 	if _, isTP := from.(*types.TypeParam); isTP {
 		// generic body: int(T) for an unsigned type parameter narrower than int keeps the value; every concrete
